@@ -1197,6 +1197,14 @@ Proof.
   rewrite Hr in H. apply InvD_true_Exact; exact H.
 Qed.
 
+(* reachable in the release build with holdings below 2^64 => exact *)
+Lemma run_release_Exact : forall pk ops w,
+  ops_u64 ops -> run false (init pk) ops = Ok w -> sum_unspent w < W64 -> Exact w.
+Proof.
+  intros pk ops w Hu Hr Hb. pose proof (run_safe false ops (init pk) (init_InvD false pk) Hu) as H.
+  rewrite Hr in H. destruct H as [G _]. split; auto.
+Qed.
+
 (* ------------------------------------------------------------------ *)
 (** * Witnesses: the four ways the pinned code builds a bad transaction *)
 
